@@ -1,5 +1,6 @@
 import MythVerif.Proofs.WsQueueSeq
 import MythVerif.Proofs.WsQueueCor
+import MythVerif.Proofs.WsQueueTsoAcct
 import MythVerif.Generated.Consts
 /-! # C02 — runnable threads are never lost or duplicated by the work-stealing queues
 
@@ -129,4 +130,100 @@ theorem C02_config_matches :
     Gen.queueLifo = 1 ∧ Gen.quickCheckOnPop = 1 ∧ Gen.quickCheckOnSteal = 1 ∧
     Gen.barrierKind = Gen.barrierCilk ∧ 2 ≤ Gen.initialQueueSize := by decide
 
+/-! ## non-vacuity (SC machine): concrete reachable states meeting the hypotheses above -/
+
+open Lbl in
+/-- capacity 4: the owner pushes 7 and 8, thief 0 takes 7 while the owner pops 8 through the locked
+    slow path (it saw the thief's transient `base+1`) -/
+def exRace : List Lbl :=
+  [oPush 7, o, o, o, oPush 8, o, o, o,
+   tTake 0, t 0, t 0, t 0, t 0,
+   oPop, o, o, o,
+   t 0, t 0, t 0,
+   o, o, o, o, o, o, o]
+
+example : (runs step (init 4) exRace).map (fun s => (s.retd, s.A, s.top, s.base, s.ins)) =
+    some ([8, 7], [], 3, 3, [8, 7]) := by decide
+example : (runs step (init 4) exRace).map (fun s => decide s.ins.Nodup) = some true := by decide
+
+open Lbl in
+/-- capacity 4: three pushes reach `top == size` and re-centre (memmove by -1); `A` is unchanged by it -/
+def exRecentre : List Lbl :=
+  [oPush 1, o, o, o, oPush 2, o, o, o, tTake 0, t 0, t 0, t 0, t 0, t 0, t 0, t 0,
+   oPush 3, o, o, o, o, o, o, o]
+
+example : (runs step (init 4) exRecentre).map (fun s => (s.opc, s.A, s.lb, s.lt, s.top, s.base)) =
+    some (.pu1 3 2, [2], 1, 2, 2, 1) := by decide
+
+open Lbl in
+/-- a state in which the decision callback is being asked (hypothesis of `C02_decline_leaves_available`) -/
+def exDecide : List Lbl := [oPush 5, o, o, o, tWTake 1, t 1, t 1, t 1, t 1, t 1, t 1]
+
+example : (runs step (init 4) exDecide).map (fun s => (s.tpc 1, s.A, s.tr)) =
+    some (.wkd 2 (some 5), [5], true) := by decide
+
+open Lbl in
+/-- a state on the owner's lock-free fast path (hypothesis of `C02_owner_fast_path_safe`) with a thief
+    holding the lock at the same time -/
+def exFast : List Lbl :=
+  [oPush 1, o, o, o, oPush 2, o, o, o, oPut 3, o, o, o, o, o,
+   tTake 0, t 0, t 0, t 0, oPop, o, o, o]
+
+example : (runs step (init 8) exFast).map (fun s => (s.opc, s.tpc 0, s.A)) =
+    some (.po3 5 2, .tk1, [3, 1]) := by decide
+
 end MythVerif.Wsq
+
+namespace MythVerif.WsqTso
+open MythVerif.Wsq (Elem Pid Holder)
+
+/- Full statement aimed at (DESIGN section 4, C02):
+
+     theorem C02_no_loss_no_dup_tso : for every reachable state of the x86-TSO machine running ALL
+       queue operations (push with re-centring, pop, put, clear, take, wsapi take with decision
+       callback, trypass, peek, wsapi peek) with the fences of the source:
+       retd.Nodup ∧ multiset(A) + in-flight + returned = multiset(inserted).
+
+   Proved below, for every capacity, any number of thieves and every interleaving of program steps
+   and store-buffer drains: the machine of `Model/WsQueueTso.lean`, i.e. owner `push` (without
+   re-centring: a push at `top == size` stops) and `pop` – fast path, locked slow path, reset path –
+   against `myth_queue_take` of any number of thieves.  Not covered: trypass / put (base-side
+   insertion), peek, the wsapi variants, the steal cache, re-centring, clear.  Modelling
+   simplification (DESIGN A.3): the releasing store of unlock is performed on memory right after its
+   fence. -/
+
+/-- **No loss, no duplication under x86-TSO store buffering (partial: push / pop / take).**
+In every reachable state of the store-buffer machine with the fences of the source, for every
+capacity and any number of thieves: the TSO invariant holds (buffer shapes, memory-side window
+`[lb, mem.top)` = prefix of `A`, `mem.base = lb (+1 while a thief's increment is visible)`), every
+value returned equals the element removed at the linearization point, nothing is returned twice,
+and inserted = deque + in flight + returned as multisets; the three fall-back branches of the
+model's ghost look-ups are unreachable; in a quiescent drained state memory `[base, top)` holds
+exactly the threads not yet resumed. -/
+theorem C02_no_loss_no_dup_tso_partial (n : Int) (s : St) (h : Reachable step (init FenceCfg.code n) s) :
+    Inv s ∧
+    (s.ins.Nodup → s.retd.Nodup ∧ (s.A ++ (s.flT.toList ++ (s.flO.toList ++ s.retd))).Perm s.ins) ∧
+    ((∀ t, s.opc = .po2 t → viewBase s.bufO s.base + 1 < t → s.A.getLast? ≠ none) ∧
+     (∀ t, s.opc = .po4 t → viewBase s.bufO s.base ≤ t → s.A.getLast? ≠ none) ∧
+     (∀ p b, s.tpc p = .tk2 b → b < viewTop (s.bufT p) s.top → s.A ≠ [])) ∧
+    (s.opc = .idle → (∀ p, s.tpc p = .idle) → s.bufO = [] →
+      s.flO = none ∧ s.flT = none ∧ s.lock = .free ∧ s.base = s.lb ∧ s.top = s.lt ∧
+      (∀ k : Nat, k < s.A.length → s.ptr (s.base + k) = s.A[k]?) ∧ (s.A.length : Int) = s.top - s.base) := by
+  have hi := reachable_inv n s h
+  exact ⟨hi, no_loss_no_dup n s h, ghost_branches_unreachable s hi, quiescent_mem s hi⟩
+
+/-! non-vacuity (TSO machine): the owner pushes 1, 2, 3 (capacity 8) with the stores of the last
+    push still buffered, starts a pop (its `top` store buffered behind them), and a thief takes
+    element 1 meanwhile, reading the stale `top` from memory -/
+open Lbl in
+def exTso : List Lbl :=
+  [oPush 1, o, o, o, o, flushO, flushO, oPush 2, o, o, o, o, flushO, flushO, oPush 3, o, o, o, o,
+   oPop, o, o,
+   tTake 0, t 0, t 0, t 0, t 0, flushT 0, t 0, t 0, t 0, t 0,
+   flushO, flushO, flushO, o, o, o, o, o, o, flushO, o]
+
+example : (runs step (init FenceCfg.code 8) exTso).map
+    (fun s => (s.retd, s.A, s.top, s.base, s.bufO)) = some ([3, 1], [2], 6, 5, []) := by decide
+example : (runs step (init FenceCfg.code 8) exTso).map (fun s => decide s.ins.Nodup) = some true := by decide
+
+end MythVerif.WsqTso
